@@ -3,5 +3,5 @@ CONSTANTS
   Vers = {1, 0, 5}
   PayClasses = {0, 1, 2, 1001, 1000}
   MicrosSet = {0, 999999}
-INVARIANTS DomainOk Thm_RoundTrip Thm_NormalForm Thm_Idempotent Thm_NoWrap MaxReached EmitRecords
+INVARIANTS DomainOk Thm_RoundTrip Thm_NormalForm Thm_Idempotent Thm_NoWrap Thm_RoundTripX XReached MaxReached EmitRecords
 CHECK_DEADLOCK FALSE
